@@ -151,6 +151,7 @@ func registerIntrinsics(e *Engine) {
 		}
 		return fr.w.encoded[len(fr.w.encoded)-1]
 	})
+	registerSummaries(e)
 	registerBytealg(e)
 	registerStrings(e)
 	registerMisc(e)
@@ -801,3 +802,81 @@ func (fr *frame) sortSlice(a []value, kernel string, stable bool) value {
 }
 
 var _ types.Type
+
+
+// Summaries of small pure callees.  They replace the real SSA body only to
+// avoid forking on branches that do not influence the result (e.g. `if b > 0`
+// in safemath.Add); each summary is proven equivalent to the real body by a
+// lemma harness (ZZ_Lemma_*) that runs the real code with summaries disabled.
+func registerSummaries(e *Engine) {
+	const sm = "github.com/jotaen/safemath/safemath"
+	errOverflow := func(fr *frame) value {
+		pkg := fr.w.eng.Prog.ImportedPackage(sm)
+		g := pkg.Var("ErrOverflow")
+		return load(fr.w.eng.global(fr.w, g))
+	}
+	const maxInt = uint64(1<<63 - 1)
+	const minInt = uint64(1<<63) + 1 // math.MinInt + 1
+	e.intrinsics[sm+".Add"] = func(fr *frame, a []value) value {
+		if fr.w.noSummaries {
+			return fr.w.exec(fr, a, nil)
+		}
+		tb := fr.w.tb
+		x, y := a[0].(*Term), a[1].(*Term)
+		ix, iy := tb.IV(x), tb.IV(y)
+		if ix.slo > math.MinInt64 && iy.slo > math.MinInt64 {
+			_, ok1 := addOK(ix.slo, iy.slo)
+			_, ok2 := addOK(ix.shi, iy.shi)
+			lo, _ := addOK(ix.slo, iy.slo)
+			if ok1 && ok2 && lo > math.MinInt64 {
+				return tuple{tb.Bin(OpAdd, x, y), iface{}} // overflow impossible by interval analysis
+			}
+		}
+		bad := tb.Or(tb.Cmp(OpSLt, x, K(64, minInt)), tb.Cmp(OpSLt, y, K(64, minInt)))
+		pos := tb.Cmp(OpSLt, K(64, 0), y)
+		over := tb.And(pos, tb.Cmp(OpSLt, tb.Bin(OpSub, K(64, maxInt), y), x))
+		under := tb.And(tb.Not(pos), tb.Cmp(OpSLt, x, tb.Bin(OpSub, K(64, minInt), y)))
+		bad = tb.Or(bad, tb.Or(over, under))
+		if fr.w.branch(bad) {
+			return tuple{K(64, 0), errOverflow(fr)}
+		}
+		return tuple{tb.Bin(OpAdd, x, y), iface{}}
+	}
+	e.intrinsics[sm+".Multiply"] = func(fr *frame, a []value) value {
+		if fr.w.noSummaries {
+			return fr.w.exec(fr, a, nil)
+		}
+		tb := fr.w.tb
+		x, y := a[0].(*Term), a[1].(*Term)
+		ix, iy := tb.IV(x), tb.IV(y)
+		if ix.slo > math.MinInt64 && iy.slo > math.MinInt64 {
+			okAll := true
+			for _, p := range [][2]int64{{ix.slo, iy.slo}, {ix.slo, iy.shi}, {ix.shi, iy.slo}, {ix.shi, iy.shi}} {
+				v, ok := mulOK(p[0], p[1])
+				if !ok || v == math.MinInt64 {
+					okAll = false
+				}
+			}
+			if okAll {
+				return tuple{tb.Bin(OpMul, x, y), iface{}} // overflow impossible by interval analysis
+			}
+		}
+		abs := func(t *Term) *Term { return tb.Ite(tb.Cmp(OpSLt, t, K(64, 0)), tb.Neg(t), t) }
+		bad := tb.Or(tb.Cmp(OpSLt, x, K(64, minInt)), tb.Cmp(OpSLt, y, K(64, minInt)))
+		yz := tb.Cmp(OpEq, y, K(64, 0))
+		div := tb.Bin(OpSDiv, K(64, maxInt), tb.Ite(yz, K(64, 1), abs(y)))
+		over := tb.And(tb.Not(yz), tb.Cmp(OpSLt, div, abs(x)))
+		bad = tb.Or(bad, over)
+		if fr.w.branch(bad) {
+			return tuple{K(64, 0), errOverflow(fr)}
+		}
+		return tuple{tb.Bin(OpMul, x, y), iface{}}
+	}
+	e.intrinsics[apiPkg+".NoSummaries"] = func(fr *frame, a []value) value {
+		old := fr.w.noSummaries
+		fr.w.noSummaries = true
+		defer func() { fr.w.noSummaries = old }()
+		fr.w.call(fr, 0, a[0], nil)
+		return nil
+	}
+}
